@@ -15,6 +15,8 @@ cNoPrefix == <<>>
 DqAlphabet == One({"x", " ", cTAB, cLF, cBS, "n", cDQ, "+", cSQ, ";"})
 cDqPrefix1 == <<"a", " ">>
 cDqPrefix2 == <<cTAB, "a", " ", " ">>
+\* inside a double-quoted string, at the start of its first continuation line
+cDqPrefix3 == <<"a", " ", cDQ, cLF>>
 cPatPrefix == <<"p","a","t","t","e","r","n"," ">>
 cCmtPrefix == <<"a", " ", "/", "*", "*", "/", " ">>
 cSqPrefix == <<"a", " ", cSQ, "q", cSQ, "+">>
